@@ -11,6 +11,7 @@ import (
 	"fmt"
 	"image"
 	"image/color"
+	"strings"
 
 	"github.com/makiuchi-d/gozxing"
 	"github.com/makiuchi-d/gozxing/datamatrix"
@@ -21,10 +22,10 @@ import (
 
 type lumEv struct {
 	Op    string  `json:"op"`
-	Kind  string  `json:"kind"`  // new: rgb | yuv | sym | <go image type>
-	Bin   int     `json:"bin"`   // 0 GlobalHistogramBinarizer, 1 HybridBinarizer
-	Pre   int     `json:"pre"`   // brot / bcrop: request the parent bitmap's matrix before making the child, and log it again afterwards
-	Pw    int     `json:"pw"`    // parent bitmap afterwards: dimensions, matrix dimensions, matrix, error class
+	Kind  string  `json:"kind"` // new: rgb | yuv | sym | <go image type>
+	Bin   int     `json:"bin"`  // 0 GlobalHistogramBinarizer, 1 HybridBinarizer
+	Pre   int     `json:"pre"`  // brot / bcrop: request the parent bitmap's matrix before making the child, and log it again afterwards
+	Pw    int     `json:"pw"`   // parent bitmap afterwards: dimensions, matrix dimensions, matrix, error class
 	Ph    int     `json:"ph"`
 	Pmw   int     `json:"pmw"`
 	Pmh   int     `json:"pmh"`
@@ -43,7 +44,7 @@ type lumEv struct {
 	H       int     `json:"h"`
 	Yl      []int   `json:"yl"` // rows recorded in px
 	Px      [][]int `json:"px"`
-	Ck      []int   `json:"ck"` // per row: sum of value*(x+1)
+	Ck      []int   `json:"ck"`   // per row: sum of value*(x+1)
 	RRow    []int   `json:"rrow"` // crop with a 5th argument y: row y of the result, fetched with GetRow
 	RErr    int     `json:"rerr"`
 	N       int     `json:"n"`  // brow: size of the returned BitArray
@@ -79,10 +80,33 @@ func (p plainImage) At(x, y int) color.Color {
 	return color.NRGBA{v, v, v, 255}
 }
 
+// grayImage builds the picture as the named image type.  Kind "<type>+sub": the picture is a SubImage of a larger parent (origin
+// not at the parent's, stride wider than the picture), as a caller gets who crops with the image package before handing it over.
 func grayImage(kind string, base [][]int, ox, oy int) (image.Image, error) {
 	bh := len(base)
 	bw := len(base[0])
-	r := image.Rect(ox, oy, ox+bw, oy+bh)
+	view := image.Rect(ox, oy, ox+bw, oy+bh)
+	r := view
+	sub := strings.HasSuffix(kind, "+sub")
+	if sub {
+		kind = strings.TrimSuffix(kind, "+sub")
+		r = image.Rect(ox-3, oy-2, ox+bw+5, oy+bh+4)
+	}
+	im, err := grayImageIn(kind, base, ox, oy, r)
+	if err != nil || !sub {
+		return im, err
+	}
+	if s, ok := im.(interface {
+		SubImage(image.Rectangle) image.Image
+	}); ok {
+		return s.SubImage(view), nil
+	}
+	return nil, fmt.Errorf("image kind %q has no SubImage", kind)
+}
+
+func grayImageIn(kind string, base [][]int, ox, oy int, r image.Rectangle) (image.Image, error) {
+	bh := len(base)
+	bw := len(base[0])
 	at := func(x, y int) uint8 { return uint8(base[y][x]) }
 	switch kind {
 	case "gray", "plain":
